@@ -351,7 +351,7 @@ func runC20(c *Ctx) {
 
 	// ---- C20.2 / C20.3 / C20.4 for all three generators
 	c.Rule("C20.2", "advertised address: in every AllocatePacketConn/AllocateListener, each return with a nil error returns (sock, addr) where addr is sock.LocalAddr()/sock.Addr() itself (pass-through generator) or its *net.UDPAddr/*net.TCPAddr assertion whose only field store is .IP = r.RelayAddress; the port bound on the requested-port path is conf.RequestedPort formatted unchanged", 6)
-	c.Rule("C20.3", "clean failure: every return with a non-nil error has a nil socket result; every retry loop's continuation is guarded by try < r.MaxRetries", 6)
+	c.Rule("C20.3", "clean failure: every return with a non-nil error has a nil socket result; every retry loop's continuation is guarded by try < r.MaxRetries; every store to MaxRetries stores a value ≥ 1 under the precondition", 6)
 	c.Rule("C20.4", "reuseport.Control is referenced only inside AllocateListener / AllocateConn (and their closures) of the generators — never on the UDP AllocatePacketConn path", 3)
 	for _, gen := range []string{"RelayAddressGeneratorPortRange", "RelayAddressGeneratorStatic", "RelayAddressGeneratorNone"} {
 		for _, mn := range []string{"AllocatePacketConn", "AllocateListener"} {
@@ -539,6 +539,43 @@ func runC20(c *Ctx) {
 					c.Bad("C20.3", fname(fn), "retry bound", w.pos(fn.Pos()), "the bind retry loop is not bounded by MaxRetries")
 				}
 			}
+		}
+	}
+	// retry budget: the configured/defaulted MaxRetries is never lowered below one attempt
+	{
+		c.Anchor("C20.3", "MaxRetries stores")
+		mr := w.Field("turn", rangeT, "MaxRetries")
+		n := 0
+		bad := ""
+		for _, fn := range w.ModFns {
+			w.eachInstr(fn, func(in ssa.Instruction) {
+				st, ok := in.(*ssa.Store)
+				if !ok {
+					return
+				}
+				fa, ok := st.Addr.(*ssa.FieldAddr)
+				if !ok || fieldOf(fa) != mr {
+					return
+				}
+				n++
+				le := &linEval{w: w, minF: minF, maxF: maxF, bind: map[*ssa.Parameter]lbound{}}
+				b := le.eval(st.Val, 0)
+				if !b.ok || !geAll(b.lo, 1) {
+					got := "outside the linear domain"
+					if b.ok {
+						got = "[" + b.lo.String() + ", " + b.hi.String() + "]"
+					}
+					bad = "MaxRetries is set at " + w.instrPos(in) + " to a value not proven ≥ 1 for every 1 ≤ MinPort ≤ MaxPort ≤ 65535 (" + got + "): with zero attempts every allocation fails although ports are free (e.g. a single-port range)"
+				}
+			})
+		}
+		if bad == "" && n >= 1 {
+			c.OK("C20.3", "turn."+rangeT, "MaxRetries stores", "-", fmt.Sprintf("%d store(s), each ≥ 1", n))
+		} else {
+			if bad == "" {
+				bad = "no default for a zero MaxRetries"
+			}
+			c.Bad("C20.3", "turn."+rangeT, "MaxRetries stores", "-", bad)
 		}
 	}
 	// C20.4
